@@ -44,7 +44,13 @@ Inductive case :=
 | CHist (P : N) (tr : bool) (tbl : list snap) (h : list ev) (rereads : list N)
 (** the same under span limits: [drops] gives, per snapshot number, the DroppedAttributes / DroppedEvents /
     DroppedLinks read together with it *)
-| CLim (P : N) (tr : bool) (lims : limits) (tbl : list snap) (drops : list dropped) (h : list ev) (rereads : list N).
+| CLim (P : N) (tr : bool) (lims : limits) (tbl : list snap) (drops : list dropped) (h : list ev) (rereads : list N)
+(** SetStatus calls on one recording span and the status read after each (XE m = Error by call m) *)
+| CStatus (ws reads : list scode)
+(** a race-detector report the harness classified as known finding [k] (see harness raceTier) *)
+| CRace (k : N).
+
+Definition XE (m : N) : scode := SError (n2 m).
 
 Definition LM (a e l : N) : limits := {| lim_attr := optn a; lim_event := optn e; lim_link := optn l |}.
 Definition DR (a e l : N) : dropped := {| d_attr := n2 a; d_event := n2 e; d_link := n2 l |}.
@@ -102,6 +108,11 @@ Definition check_case (c : case) : list N :=
       let hh := map (conv_lim tbl drops) h in
       flag (spec_lim_ok lims (n2 P) hh &&
             stable_lim_ok hh (map (fun i => (nth (n2 i) tbl dummy_snap, nth (n2 i) drops no_drop)) rr)) V_SPECFAIL
+  | CStatus ws reads =>
+      flag (scodes_eqb (status_run SUnset ws) reads) V_MISMATCH ++
+      flag (status_spec ws reads) V_SPECFAIL ++
+      flag (status_spec ws (status_run SUnset ws)) V_MODELSPEC
+  | CRace k => [V_KNOWN k]
   end.
 
 Definition run (cs : list case) : list (N * N) := index_from 0 check_case cs.
